@@ -77,6 +77,12 @@ impl ChannelMonitor {
 }
 pub struct MonitorUpdatingPersisterAsyncInner { pub kv_store: KVStoreStub, pub maximum_pending_updates: u64 }
 impl MonitorUpdatingPersisterAsyncInner {
+    // the monitor with every stored incremental update replayed on top: at least as new as the stored full monitor (environment
+    // completeness: present so that a change that reads through it is verified, not rejected by the tool)
+    #[verifier::external_body]
+	async fn maybe_read_channel_monitor_with_updates(&self, monitor_key: &str) -> (r: Result<Option<(BlockLocator, ChannelMonitor)>, Error>)
+        ensures r is Ok && r->Ok_0 is Some ==> r->Ok_0->Some_0.1.latest >= stored_latest(monitor_key@)
+    { unimplemented!() }
     #[verifier::external_body]
 	async fn maybe_read_monitor(&self, monitor_name: &MonitorName, monitor_key: &str) -> (r: Result<Option<(BlockLocator, ChannelMonitor)>, Error>)
         ensures r is Ok && r->Ok_0 is Some ==> r->Ok_0->Some_0.1.latest == stored_latest(monitor_key@)
